@@ -183,6 +183,10 @@ func c02GenOp(rt *rapid.T, single bool, mixed bool) prog.Op {
 		case 1:
 			op.SB = op.B
 		}
+		if rapid.IntRange(0, 2).Draw(rt, "copymeta") == 0 {
+			// the copy request overrides metadata: the destination gets it, the source must not
+			op.Meta = [][2]string{{"X-Amz-Meta-Tag", fmt.Sprintf("copy%d", rapid.IntRange(0, 9).Draw(rt, "cmv"))}, {"X-Amz-Meta-Only-On-Copy", "c"}}
+		}
 	}
 	if mixed && rapid.IntRange(0, 3).Draw(rt, "via") == 0 {
 		op.Via = "api"
